@@ -16,4 +16,5 @@ def main (args : List String) : IO UInt32 := do
   | ["ante"] => Driver.loop stdin stdout Driver.Ante.step (); return 0
   | ["vauth"] => Driver.loop stdin stdout Driver.VAuth.step Driver.VAuth.init; return 0
   | ["erc20"] => Driver.loop stdin stdout Driver.Erc20.step Driver.Erc20.init; return 0
+  | ["calltree"] => Driver.loop stdin stdout Driver.Erc20.step Driver.Erc20.init; return 0
   | _ => IO.eprintln "usage: driver <engine>"; return 2
